@@ -757,15 +757,19 @@ def spec_check(ctx, budget):
             except Exception as e:
                 add_failure(out, "spec", "parent_coordinates raised", inp, "coords", repr(e), sig=f"coords-raise:{kind}")
             # read-only methods answer as on a fresh sequence built from the string
-            if len(cur) and rng.random() < 0.35:
-                fresh = _mk_seq(kind, cur_mt, cur, 0)
+            if (len(cur) or kind in ("newcoll", "new", "old")) and rng.random() < (0.35 if len(cur) else 0.6):
+                # empty views are swept too: a method must not see the whole parent through an empty view
+                try:
+                    fresh = _mk_seq(kind if len(cur) or kind != "newcoll" else "new", cur_mt, cur, 0)
+                except Exception:
+                    fresh = _mk_seq("new" if kind != "old" else "old", cur_mt, cur, 0)
                 for name, f in rng.sample(READ_ONLY, 6):
                     a = _call(f, seq, cur)
                     b = _call(f, fresh, cur)
                     if a != b and not (a[0] == "exc" and b[0] == "exc"):
                         if a[0] == "exc" and a[1] in ("AttributeError", "TypeError", "NotImplementedError") and b[0] == "exc":
                             continue
-                        add_failure(out, "spec", f"read-only method {name} differs from fresh sequence", dict(inp, method=name), b, a, sig=f"method:{kind}:{name}")
+                        add_failure(out, "spec", f"read-only method {name} differs from fresh sequence", dict(inp, method=name, view_reversed=_is_rev(seq)), b, a, sig=f"method:{kind}:{name}")
                     bump(out, "methods", name)
                 # reflection sweep
                 meths = _reflect_methods(seq)
@@ -775,7 +779,7 @@ def spec_check(ctx, budget):
                     b = _call_method(fresh, name, args)
                     bump(out, "reflected_methods", name)
                     if a != b and not (a[0] == "exc" and b[0] == "exc"):
-                        add_failure(out, "spec", f"public method {name} differs from fresh sequence", dict(inp, method=name, reflected=True), b, a, sig=f"method:{kind}:{name}")
+                        add_failure(out, "spec", f"public method {name} differs from fresh sequence", dict(inp, method=name, reflected=True, view_reversed=_is_rev(seq)), b, a, sig=f"method:{kind}:{name}")
             if len(cur):
                 out["nontrivial"].add((kind, mt, text, str(ops)))
             bump(out, "chain_depth", len(ops))
@@ -783,6 +787,13 @@ def spec_check(ctx, budget):
             if len(out["samples"]) < 5 and len(ops) > 2 and len(cur) > 2:
                 out["samples"].append(dict(inp, result=cur))
     return out
+
+
+def _is_rev(seq):
+    try:
+        return bool(seq._seq.is_reversed)
+    except Exception:
+        return None
 
 
 def _was_reversed(ops):
@@ -805,8 +816,12 @@ def match_finding(f, k):
         return False
     if r.get("moltypes") and inp.get("moltype") not in r["moltypes"]:
         return False
-    if r.get("needs_reversed") and not _was_reversed(inp.get("chain", [])):
-        return False
+    if r.get("needs_reversed"):
+        rev = inp.get("view_reversed")
+        if rev is None:
+            rev = _was_reversed(inp.get("chain", []))
+        if not rev:
+            return False
     if r.get("got") and list(f.get("got") or []) != list(r["got"]):
         return False
     return True
